@@ -187,6 +187,7 @@ class NativeSym(object):
         if not 0 <= n <= max_size:
             self.bad_input.append(name)
         path = os.path.join(self.scratch_dir(), name)
+        os.makedirs(os.path.dirname(path), exist_ok=True)
         block = bytes(range(256)) * 4096
         with open(path, "wb") as f:
             left = n
